@@ -510,3 +510,15 @@ Example C12_lifetime_nonvacuous :
                                               (lv_rf_introspection v))]) = false.
 Proof. exact lifetime_nonvacuous. Qed.
 (* --- end round 11 --- *)
+
+(* --- round 12: the probed delivery table is an instance of the law of the translated source --- *)
+From Verif Require Lib.PyOps Gen.Src_authz Proofs.Src_refine_authz Proofs.Src_refine_fragtab.
+Theorem C12_fragment_encoding_is_source : forall rt clock,
+  Src_authz.fragment_encoding_src (VList (List.map VStr rt)) clock = Ok (VBool (Src_refine_authz.fragment_encoding rt)).
+Proof. exact Src_refine_authz.fragment_encoding_refines. Qed.
+Print Assumptions C12_fragment_encoding_is_source.
+Theorem C12_fragment_enc_table_is_source :
+  forallb (fun rb => Bool.eqb (Src_refine_authz.fragment_encoding (words (fst rb))) (snd rb)) op_fragment_enc = true.
+Proof. exact Src_refine_fragtab.fragment_enc_table_is_source. Qed.
+Print Assumptions C12_fragment_enc_table_is_source.
+(* --- end round 12 --- *)
